@@ -32,7 +32,9 @@ for sid in ids:
     def run_demo():
         dst = os.path.join("/repo", ddir, "zz_seeded_demo_test.go")
         sh("cp %s %s" % (demo, dst))
-        r = sh("cd /repo/%s && go test -tags verif -vet=off -count=1 -timeout 300s . " % ddir)
+        # a demonstration that says so on its first line needs the race detector
+        race = "-race " if "-race" in first else ""
+        r = sh("cd /repo/%s && go test %s-tags verif -vet=off -count=1 -timeout 300s . " % (ddir, race))
         os.remove(dst)
         return r.returncode
     demo_clean = run_demo()
